@@ -179,18 +179,22 @@ fn ask(e: &mut BackwardEngine, q: &str, f: &mut Facts) -> Option<bool> {
 
 /// all subsets of the pool of size 1..=3, plus hand-picked sets of 4 that combine shared sub-goals, wrong values, failing actions
 /// and a cycle behind one goal
-fn rule_sets() -> Vec<Vec<usize>> {
+/// (`max_size` = 3 in the quick tier, 4 in the thorough tier: every subset of 1..=max_size rules, in the order a; a,b; a,b,c; ..)
+const HAND_PICKED: usize = 8;
+fn rule_sets(max_size: usize) -> Vec<Vec<usize>> {
     let n = POOL.len();
     let mut v: Vec<Vec<usize>> = Vec::new();
-    for a in 0..n {
-        v.push(vec![a]);
-        for b in a + 1..n {
-            v.push(vec![a, b]);
-            for c in b + 1..n {
-                v.push(vec![a, b, c]);
+    fn extend(v: &mut Vec<Vec<usize>>, cur: &mut Vec<usize>, from: usize, n: usize, max_size: usize) {
+        for a in from..n {
+            cur.push(a);
+            v.push(cur.clone());
+            if cur.len() < max_size {
+                extend(v, cur, a + 1, n, max_size);
             }
+            cur.pop();
         }
     }
+    extend(&mut v, &mut Vec::new(), 0, n, max_size);
     let idx = |name: &str| POOL.iter().position(|t| t.name == name).unwrap();
     for four in [
         ["p_from_a", "q_from_a", "g_wrong_from_pq", "g_from_pq"],
@@ -245,7 +249,8 @@ fn watched(work: impl FnOnce(&AtomicU64, &Mutex<String>) -> (bool, String) + Sen
 
 fn failed_query_search(strategy: SearchStrategy) -> (bool, String) {
     watched(move |ticks, cur| {
-        let sets = rule_sets();
+        let max_size = crate::bound(3, 4);
+        let sets = rule_sets(max_size);
         let (mut asked, mut failed, mut skipped) = (0u64, 0u64, 0u64);
         for naming in 0..2 {
             let gs = goals(naming);
@@ -297,10 +302,11 @@ fn failed_query_search(strategy: SearchStrategy) -> (bool, String) {
         (
             false,
             format!(
-                "{:?}: {} queries ({} rule sets x 2 field namings x up to {} start states x max_depth 0..4 x 4 goals): {} reported not provable, all with facts unchanged; {} errored or panicked (nothing reported: skipped)",
+                "{:?}: {} queries ({} rule sets [every set of <= {} rules out of 15 + 8 hand-picked sets of 4] x 2 field namings x up to {} start states x max_depth 0..4 x 4 goals): {} reported not provable, all with facts unchanged; {} errored or panicked (nothing reported: skipped)",
                 strategy,
                 asked,
                 sets.len(),
+                max_size,
                 STATES,
                 failed,
                 skipped
@@ -311,7 +317,12 @@ fn failed_query_search(strategy: SearchStrategy) -> (bool, String) {
 
 fn failed_query_after_success(strategy: SearchStrategy) -> (bool, String) {
     watched(move |ticks, cur| {
-        let sets: Vec<Vec<usize>> = rule_sets().into_iter().filter(|s| s.len() != 3 || s[0] < 4).collect();
+        // quick tier: every set of <= 2 rules, the sets of 3 whose first rule is one of the first four of the pool, the hand-picked
+        // sets of 4; thorough tier: every set of <= 3 rules, the sets of 4 whose first rule is one of the first four, the hand-picked
+        let (max_size, full_size) = (crate::bound(3, 4), crate::bound(2, 3));
+        let all = rule_sets(max_size);
+        let n_all = all.len();
+        let sets: Vec<Vec<usize>> = all.into_iter().enumerate().filter(|(i, s)| *i >= n_all - HAND_PICKED || s.len() <= full_size || s[0] < 4).map(|(_, s)| s).collect();
         let (mut pairs, mut checked) = (0u64, 0u64);
         for naming in 0..2 {
             let gs = goals(naming);
@@ -361,7 +372,7 @@ fn failed_query_after_success(strategy: SearchStrategy) -> (bool, String) {
                 }
             }
         }
-        (false, format!("{:?}: {} query pairs on one engine and one fact store; {} times a provable first query was followed by a not-provable second one: facts unchanged by the second every time", strategy, pairs, checked))
+        (false, format!("{:?}: {} query pairs ({} rule sets: every set of <= {} rules, the sets of {} starting with one of the first 4 rules, 8 hand-picked sets of 4) on one engine and one fact store; {} times a provable first query was followed by a not-provable second one: facts unchanged by the second every time", strategy, pairs, sets.len(), full_size, max_size, checked))
     })
 }
 
